@@ -41,7 +41,7 @@ class C03(Oracle):
             "p_clash": rng.choice([0.3, 0.6, 0.8]),
             "p_extra": rng.choice([0.2, 0.6]),
             "name_kinds": {"nsobj": 3, "qn": 5, "pl": 4, "bare": 2, "full": 2},
-            "value_kinds": {"s": 2, "i": 1, "qnv": 5, "lang": 1},
+            "value_kinds": {"s": 2, "i": 1, "qnv": 5, "lang": 1, "litf": 2},
             "odd_locals": rng.random() < 0.3,
             "attr_prov": 0.1,
         }
@@ -225,6 +225,8 @@ class C03(Oracle):
                 self.hand(c, a, "attribute-name")
                 if isinstance(v, QualifiedName):
                     self.hand(c, v, "attribute-value")
+                elif isinstance(v, Literal) and isinstance(v.datatype, QualifiedName):
+                    self.hand(c, v.datatype, "literal-datatype")
         # (c) re-resolution of every name ever handed out
         for printed, (uri, how) in s["handed"].items():
             q = c.valid_qualified_name(printed)
